@@ -1,6 +1,7 @@
 package main
 
 import (
+	"encoding/json"
 	"fmt"
 	"time"
 
@@ -42,7 +43,22 @@ func c16(c *Ctx) {
 			if h == 24 && m > 0 {
 				break
 			}
-			hh = append(hh, types.NewHHmm(h, m))
+			// the values are built in every way the package offers (a field that only some constructors fill in must not matter)
+			v := types.NewHHmm(h, m)
+			switch k := len(hh) % 4; {
+			case k == 1 && h < 24:
+				v = types.HHmmFromTime(time.Date(2024, 5, 17, h, m, 42, 999, time.FixedZone("X", 5*3600)))
+			case k == 2:
+				if p, err := types.HHmmFromString(fmt.Sprintf("%02d:%02d", h, m)); err == nil && p != nil {
+					v = *p
+				}
+			case k == 3:
+				var j types.HHmm
+				if json.Unmarshal([]byte(fmt.Sprintf(`"%02d:%02d"`, h, m)), &j) == nil {
+					v = j
+				}
+			}
+			hh = append(hh, v)
 			hv = append(hv, []int{h, m})
 		}
 	}
@@ -89,17 +105,23 @@ func c16(c *Ctx) {
 
 	// ---- dates
 	mk := func(v rm.Val, ctor int) types.Date {
-		switch ctor % 3 {
+		switch ctor % 6 {
 		case 1:
 			return types.Date(time.Date(v.Y, time.Month(v.Mo), v.D, 23, 59, 59, 999, time.FixedZone("A", 14*3600)))
 		case 2:
 			return types.Date(time.Date(v.Y, time.Month(v.Mo), v.D, 0, 0, 0, 0, time.FixedZone("B", -12*3600)))
+		case 3: // late in the day far west, early in the day far east: the instants are in the opposite order to the calendar days
+			return types.Date(time.Date(v.Y, time.Month(v.Mo), v.D, 23, 59, 59, 0, time.FixedZone("B", -12*3600)))
+		case 4:
+			return types.Date(time.Date(v.Y, time.Month(v.Mo), v.D, 0, 0, 1, 0, time.FixedZone("A", 14*3600)))
+		case 5:
+			return types.Date(time.Date(v.Y, time.Month(v.Mo), v.D, 12, 0, 0, 0, time.UTC))
 		}
 		return types.ToDate(v.Y, time.Month(v.Mo), v.D)
 	}
 	cmpDate := func(a, b rm.Val) int { return cmpInts([]int{a.Y, a.Mo, a.D}, []int{b.Y, b.Mo, b.D}) }
 	datePair := func(a, b rm.Val, tag string) {
-		da, db := mk(a, r.Pick(3)), mk(b, r.Pick(3))
+		da, db := mk(a, r.Pick(6)), mk(b, r.Pick(6))
 		c.Res.DistinctKey("d", a.String(), b.String())
 		judge("date", cmpDate(a, b), da.Before(db), da.After(db), da.Equals(db), a.String(), b.String())
 		if da.Before(db) != db.After(da) {
